@@ -216,7 +216,7 @@ func refNodeCase(c c06NodeCase, interval time.Duration) c06Expect {
 			return c06Expect{dl, true, start, min, max}
 		}
 		switch e.Kind {
-		case "confirm", "resuspect":
+		case "confirm", "resuspect", "newersuspect":
 			// one and the same message: a suspect claim from e.From at the
 			// current incarnation. With a suspicion running it is a
 			// confirmation; after an accepted refutation it starts a new one.
@@ -357,6 +357,15 @@ func runNodeCase(t *testing.T, c c06NodeCase) (sig, msg string) {
 				o.M.VAliveNode(&ml.VAlive{Incarnation: inc, Node: "x", Addr: ip4(2), Port: 7946, Vsn: defaultVsn}, nil, false)
 			case "resuspect":
 				o.M.VSuspectNode(&ml.VSuspect{Incarnation: inc, Node: "x", From: e.From})
+			case "newersuspect":
+				// a better-informed peer suspects x at a NEWER incarnation than this node holds (it saw a
+				// refutation this node missed): during a running suspicion that is one more confirmation;
+				// otherwise it starts a suspicion - either way x must be declared dead in due time
+				was := findRec(o.M.VSnapshot(), "x")
+				o.M.VSuspectNode(&ml.VSuspect{Incarnation: inc + 1, Node: "x", From: e.From})
+				if was != nil && was.State == ml.StateAlive {
+					inc++ // it started a suspicion: the record now carries the newer incarnation
+				}
 			case "dead":
 				o.M.VDeadNode(&ml.VDead{Incarnation: inc, Node: "x", From: e.From})
 			case "leave":
@@ -539,7 +548,7 @@ func TestC06(t *testing.T) {
 			sort.Slice(menu, func(i, j int) bool { return menu[i] < menu[j] })
 			kinds := []nev{{Kind: "confirm", From: "o"}, {Kind: "confirm", From: "t"}, {Kind: "confirm", From: "u"}, {Kind: "confirm", From: "x"},
 				{Kind: "refute"}, {Kind: "resuspect", From: "u"}, {Kind: "dead", From: "t"}, {Kind: "leave"}, {Kind: "addnode"},
-				{Kind: "staledead", From: "t"}, {Kind: "stalesuspect", From: "v"}, {Kind: "stalealive"}}
+				{Kind: "staledead", From: "t"}, {Kind: "stalesuspect", From: "v"}, {Kind: "stalealive"}, {Kind: "newersuspect", From: "w"}}
 			if thorough() {
 				kinds = append(kinds, nev{Kind: "confirm", From: "v"}, nev{Kind: "resuspect", From: "o"})
 			}
